@@ -331,8 +331,15 @@ Theorem no_stale_marker_proved : forall ps s starts obs wmid,
   no_stale (s_hist s) (s_now s) (s_wprog s) wmid starts ps obs = true.
 Proof. intros ps s starts obs wmid HI. apply no_stale_gen_proved; [exact HI|left; reflexivity]. Qed.
 
-(* the code as it is (flags read from the source; the expired-entry flag whatever it says): schedules
-   during which the clock does not advance *)
+Lemma flag_expired_marker : cache_expired_leaves_marker = true. Proof. reflexivity. Qed.
+
+(* the code as it is: the three flags read from the source say "marker", "marked", "marker" *)
+Theorem no_stale_after_complete_proved : forall ps s starts obs wmid,
+  Inv s starts -> sch_run s ps = Some obs -> no_stale (s_hist s) (s_now s) (s_wprog s) wmid starts ps obs = true.
+Proof. unfold sch_run. rewrite flag_delete_marker, flag_big_marked, flag_expired_marker. exact no_stale_marker_proved. Qed.
+
+(* whatever the expired-entry flag says (the entry-dropping shape of the code before 629c386d4 included):
+   schedules during which the clock does not advance *)
 Theorem no_stale_no_clock_proved : forall ps s starts obs wmid,
   Inv s starts -> s_now s = 0 -> ~ In PC ps -> sch_run s ps = Some obs ->
   no_stale (s_hist s) (s_now s) (s_wprog s) wmid starts ps obs = true.
